@@ -55,6 +55,9 @@ func cmdRun(args []string) {
 		fmt.Println("SPEC-ERROR", e)
 	}
 	fmt.Printf("loaded %d functions, %d contracts in %.1fs\n", len(P.Funcs), len(P.Specs.Funcs), time.Since(t0).Seconds())
+	if k := os.Getenv("GOVC_REGIONS"); k != "" {
+		debugRegions(P, k)
+	}
 	re := regexp.MustCompile(*pat)
 	var reOnly *regexp.Regexp
 	if *only != "" {
@@ -125,6 +128,9 @@ func cmdRun(args []string) {
 			for _, k := range ks {
 				fmt.Printf("        %s = %s\n", k, o.Result.Model[k])
 			}
+		}
+		if o.Result.Backend == "effects-analysis" {
+			fmt.Println("        " + o.Result.Output)
 		}
 		if o.Result.Status == "error" {
 			fmt.Println("        " + strings.ReplaceAll(strings.TrimSpace(o.Result.Output), "\n", "\n        "))
